@@ -131,15 +131,20 @@ def _w_case(case):
 # model lines
 # ---------------------------------------------------------------------------------------------
 
-def tup_events(aevs, expected=None):
-    """events as tuples; a chunk write that failed before any byte was handed to write() has no payload id
-    in the log: it gets the id of the chunk it was going to write"""
+def tup_events(aevs, expected=None, clean_aevs=None):
+    """events as tuples.  An operation that failed before any byte was handed to write() has no payload in the
+    log: a chunk write gets the id of the chunk it was going to write, a metadata flush gets the content of the
+    flush with the same occurrence number in the clean run (up to its first fault a run equals the clean run)"""
     v_of = {i: v for i, n, v in (expected or [])}
+    clean_meta = [tuple(_tup(op)) for op, oc, info in (clean_aevs or []) if op[0] == "meta"]
     out = []
     for op, oc, info in aevs:
         op = tuple(_tup(op))
         if op[0] == "wtmp" and op[2] == 0 and oc != "done" and op[1] in v_of:
             op = ("wtmp", op[1], v_of[op[1]])
+        sid = info.get("sid") or []
+        if op == ("meta", 0, 0, ()) and oc != "done" and len(sid) == 4 and sid[1] == "open_w" and sid[3] < len(clean_meta):
+            op = clean_meta[sid[3]]
         out.append((op, oc, info))
     return out
 
@@ -306,7 +311,7 @@ def evaluate(ctx, ev, cfg, clean, case, recs, stats):
             expected = clean["expected"].get(k)
             if expected is None:
                 continue
-            aevs = tup_events(rec["aevents"].get(k, []), expected)
+            aevs = tup_events(rec["aevents"].get(k, []), expected, clean["aevents"].get(k))
             if any(oc == "partial" for _, oc, _ in aevs):
                 continue  # non-atomic rmtree (extension unit) is judged by the property predicate only
             fs0 = _fs(rec["before"].get(k, EMPTY_FS))
@@ -359,7 +364,7 @@ def evaluate(ctx, ev, cfg, clean, case, recs, stats):
             fs1 = _fs(rec["after"].get(k, EMPTY_FS))
             if not (encodable(fs0) and encodable(fs1)):
                 continue
-            aevs = tup_events(rec["aevents"].get(k, []), expected)
+            aevs = tup_events(rec["aevents"].get(k, []), expected, clean["aevents"].get(k))
             plan = None
             rem = []
             if not fault_free:
